@@ -12,6 +12,8 @@ def main():
         out = os.path.join(d, "r.xml")
         env = dict(os.environ)
         env.pop("XANADUAI_BLACKBIRD_VERIF", None)
+        env["PYTHONPATH"] = os.path.join(repo, "blackbird_python")  # the venv has an editable install of /repo: make the copy win
+        env["PYTHONDONTWRITEBYTECODE"] = "1"
         subprocess.run(["/venv/bin/python", "-m", "pytest", "-ra", "-q", "-p", "no:cacheprovider",
                         "--timeout=900", "--continue-on-collection-errors", "--junitxml=" + out],
                        cwd=repo, env=env, stdout=subprocess.DEVNULL, stderr=subprocess.DEVNULL)
